@@ -41,8 +41,10 @@ MODELLED = ["numpy elementwise semantics of COSPricer.xi/psi/u_put (translated p
             "the masked cells uninitialised: modelled by an arbitrary real `uninit` (the theorems show the result never depends on it)",
             "scipy.stats.norm.cdf: abstract Phi (symmetric, [0,1]-valued, monotone) in the theorems; the Gaussian integral PhiR in the "
             "Interval cases (that PhiR satisfies Phi_like is NOT proved)",
-            "COSPricer._pricing_formula (the finite cosine sum), FFTPricer._call_prices (FFT, interpolation), the characteristic "
-            "functions and cumulants: NOT modelled -- covered by the differential tests only",
+            "COSPricer._pricing_formula / density: hand model cos_sum / cos_density (finite sum, real part termwise; the complex numbers "
+            "cf(u_k) e^{..} enter as the real data A_k), tied by Interval cases on pricers with 3-5 terms",
+            "FFTPricer._call_prices (FFT, interpolation), the characteristic functions and cumulants: NOT modelled -- covered by the "
+            "differential tests only",
             "VG = CGMY(Y=0) is proved for real arguments inside the strip of analyticity; the complex extension used by the "
             "characteristic function is covered by the differential test VG vs CGMY"]
 ASSUMPTIONS = ["the differential tests hold on the documented box and regime only; they are tests, not proofs",
@@ -51,8 +53,10 @@ ASSUMPTIONS = ["the differential tests hold on the documented box and regime onl
 THEOREM_NOTES = {
     "C18_bs_closed_form_partial": "partial: lower bounds and monotonicity/convexity in K of the non-degenerate branch need the Gaussian "
                                   "identity fwd*phi(d1) = K*phi(d2), not available for an abstract Phi; tested only",
-    "C18_cos_is_integral": "not a theorem: the pricing sum as the integral of payoff times truncated density (orthogonality) and "
-                           "C18_shape_from_positive_density were not attempted; the shape predicates are differential tests",
+    "C18_cos_is_integral": "about the hand model cos_sum/cos_density of _pricing_formula/density (Model/CosSum.v), tied to the "
+                           "implementation by Interval cases on pricers with 3-5 terms",
+    "C18_shape_from_positive_density_partial": "partial: only put >= 0 and digital >= 0 under f_N >= 0; monotonicity/convexity in K and "
+                                               "the upper bounds are differential tests only",
     "C18_vg_is_cgmy": "real argument only (see MODELLED)",
 }
 
@@ -68,7 +72,9 @@ def rlit(x) -> str:
 CASE_HEADER = """From Coq Require Import Reals Lra.
 From Coquelicot Require Import Coquelicot.
 From Interval Require Import Tactic.
-From RV Require Import Base.RB Gen.GenC18Cos Model.Cos Proofs.C18_Cos.
+From Coq Require Import List.
+From RV Require Import Base.RB Gen.GenC18Cos Model.Cos Model.CosSum Proofs.C18_Cos.
+Import ListNotations.
 Open Scope R_scope.
 Ltac nondeg := unfold bs_degenerate, Rltb;
   repeat match goal with |- context [Rlt_dec ?a ?b] => destruct (Rlt_dec a b); [exfalso; lra|] end; reflexivity.
@@ -200,6 +206,42 @@ def _bs_cases(res, rng, n_cases):
                 f"  set (p1 := PhiR {a1}) in *. set (p2 := PhiR {a2}) in *.\n  interval with (i_prec 60).\nQed.")
         res.count(("bs", r, d, S, sigma, T, K, flag), kind="interval case black-scholes")
         lemmas.append((f"bs flag={flag} S={S} K={K} T={T} sigma={sigma} r={r} d={d}", text))
+    return lemmas
+
+
+def _sum_cases(res, rng, n_cases):
+    """COSPricer._pricing_formula on a pricer with few terms against the hand model cos_sum: the numbers
+    A_k = Re(cf(u_k) e^{-i u_k log_spot} e^{i u_k (x-a)}) are fed as data, the coefficients are the generated cos_u_put / cos_digital_vk"""
+    import numpy as np
+    from rpylib.model import utils as U_
+    from rpylib.model.levymodel.levymodel import ModelType
+    from rpylib.numerical.cosmethod import COSPricer
+    lemmas = []
+    for i in range(n_cases):
+        name = ["HEM", "MERTON", "VG", "CGMY", "BLACKSCHOLES"][i % 5]
+        S, r, d, T = rng.choice([50.0, 100.0]), rng.choice([0.0, 0.02]), rng.choice([0.0, 0.01]), rng.choice([0.25, 1.0])
+        model = U_.helper_model(ModelType[name])(spot=S, r=r, d=d, **_sample(rng, name))
+        n = rng.choice([3, 4, 5])
+        cos = COSPricer(model, n=n)
+        a, b = (float(v) for v in cos._interval_a_b(t=T))
+        K = S * rng.choice([0.9, 1.0, 1.1])
+        x = np.array([np.log(S / K)])
+        k = np.arange(n)
+        which = "u_put" if i % 2 == 0 else "vk"
+        vk = COSPricer.u_put(k, a, b) if which == "u_put" else 2 / (b - a) * COSPricer.psi(k, a, b, 0.0, b)
+        val = float(cos._pricing_formula(x, T, a, b, vk)[0])
+        cst = k * np.pi / (b - a)
+        A = (cos.cf(t=T, x=cst) * np.exp(-1j * cst * model.x0_value()) * np.exp(1j * (x[0] - a) * cst)).real
+        df = float(model.df(t=T))
+        fun = "cos_u_put" if which == "u_put" else "cos_digital_vk"
+        unfold = "unfold cos_u_put" if which == "u_put" else "unfold cos_digital_vk"
+        alist = "; ".join(rlit(float(v)) for v in A)
+        tol = 1e-12 * (1 + math.exp(b))
+        text = (f"Lemma case_p{i} : Rabs ({rlit(df)} * cos_sum {n - 1} (fun k => nth k [{alist}] 0) (fun k => {fun} 12345 (INR k) {rlit(a)} {rlit(b)}) "
+                f"- {rlit(val)}) <= {rlit(tol)}.\nProof.\n  unfold cos_sum, cos_weight; simpl sum_f_R0; simpl nth; simpl INR; {unfold}; replace (0 / 1) with 0 by field.\n"
+                f"  rewrite cos_psi_zero; repeat (rewrite cos_psi_nonzero by lra); unfold psi_prim, cos_xi; cbv zeta beta.\n  interval with (i_prec 100).\nQed.")
+        res.count(("sum", name, n, which, S, K, T), kind="interval case pricing sum")
+        lemmas.append((f"pricing sum {name} n={n} {which}", text))
     return lemmas
 
 
@@ -459,10 +501,12 @@ def correspond(res):
         coef = _coefficient_cases(res, rng, 48 if quick else 400)
         simp = _simpson_cases(res, rng)
         bs = _bs_cases(res, rng, 6 if quick else 40)
+        sums = _sum_cases(res, rng, 4 if quick else 20)
         _degenerate_bs(res, viol)
         _differential(res, rng, 14 if quick else 150, 6 if quick else 60, viol)
     _run_lemmas(res, "cases_coefficients", coef + simp)
     _run_lemmas(res, "cases_bs", bs)
+    _run_lemmas(res, "cases_sum", sums)
 
 
 def search(res):
@@ -512,7 +556,7 @@ LEVEL_TEXT = ("Proof, PARTIAL: Coq theorems (over R with Coquelicot; standard re
               "psi are the exact integrals of e^y cos(k pi (y-a)/(b-a)) and cos(...) for every real k incl. k=0, so the put and digital "
               "coefficients are the exact cosine coefficients of the payoffs, independently of the uninitialised cells of np.divide, "
               "(3) the FFT weights are eta/3*(1,4,2,4,...), (4) the VG map C=1/nu, G=lambda_-, M=lambda_+, Y=0 makes the CGMY and VG "
-              "exponents equal, (5) closed-form upper bounds and degenerate branch, (6) cdf = 1 - digital/df. Model and implementation "
+              "exponents equal, (5) closed-form upper bounds and degenerate branch, (6) cdf = 1 - digital/df, (7) the COS pricing sum is the integral of the payoff against the density reconstructed from the same coefficients, hence put and digital are >= 0 whenever that density is. Model and implementation "
               "are tied by ~60 Interval/integral case lemmas per run. NOT proved and reported only as differential TESTS over a documented "
               "box: truncation error, non-negative density, no-arbitrage shape in the strike, COS/FFT/closed-form agreement.")
 LEVEL_NOTE = ("Trusted: Coq kernel, Coquelicot, Interval (reflexive interval arithmetic inside vm_compute); stdlib real/classical axioms; "
